@@ -254,6 +254,55 @@ def compile_walk_total(ctx, rep, R):
                                                                   or any(isinstance(c.func, ast.Attribute) and c.func.attr == "extend" for c in calls(x.ast))))
     rep.ob(R, site, "each parsed file becomes part of the tree", w is None,
            "an iteration can end with the parsed file neither becoming the tree nor being merged into it", path=cfg.describe(w) if w else "")
+    # the levels above: every folder is walked, every directory the walk visits has its files looked at, and the walk is not pruned
+    from ..cfg import enclosing_loops
+    for outer, nxt in zip(enclosing_loops(fn, lp), enclosing_loops(fn, lp)[1:] + [lp]):
+        w = iteration_skips(cfg, outer, lambda x, nxt=nxt: x.kind == "iter" and x.ast is nxt)
+        rep.ob(R, site, "every element of `for %s in ...` gets to the files below it" % norm(outer.target)[:30], w is None,
+               "an iteration of the loop over `%s` can end before the loop over the files of that directory is reached: the Modelica files there "
+               "take no part in the compile (a sub-package kept in a plain directory, a library folder skipped)" % norm(outer.iter)[:60],
+               path=cfg.describe(w) if w else "")
+    walks = [o for o in enclosing_loops(fn, lp) if isinstance(o.iter, ast.Call) and (call_name(o.iter) or "").endswith("walk")]
+    for o in walks:
+        dirvar = o.target.elts[1].id if isinstance(o.target, ast.Tuple) and len(o.target.elts) == 3 and isinstance(o.target.elts[1], ast.Name) else None
+        uses = [x for st in o.body for x in ast.walk(st) if isinstance(x, ast.Name) and x.id == dirvar] if dirvar else []
+        rep.ob(R, site, "the directory walk is not pruned", dirvar is not None and not uses,
+               "the list of sub-directories os.walk hands out (`%s`) is used in the loop body (line %s): editing it prunes the walk, and the files "
+               "below the pruned directories are never parsed" % (dirvar, uses[0].lineno if uses else "?"))
+
+
+@SPEC.rule(
+    "R20.8",
+    "the staleness scan looks at every source file: in load_model every folder is walked, every directory of the walk has its *.mo files "
+    "looked at, and every such file gets to the modification-time comparison (no skip by base name, `seen before`, directory kind ...); "
+    "the walk is not pruned",
+)
+def r20_8(ctx, rep):
+    from ..cfg import enclosing_loops, loop_nest_skips
+    R = "R20.8"
+    fn = api_fn(ctx, "load_model", R)
+    site = API + ":load_model"
+    cfg = CFG(fn, R)
+
+    def has_mtime_test(lp):
+        return any(isinstance(x, ast.Compare) and "getmtime" in norm(x) for st in lp.body for x in ast.walk(st))
+
+    inner = [lp for lp in walk_local(fn) if isinstance(lp, ast.For) and has_mtime_test(lp)
+             and not any(isinstance(x, ast.For) and has_mtime_test(x) for st in lp.body for x in ast.walk(st))]
+    if len(inner) != 1:
+        raise MechanismMissing(R, "the loop of load_model that compares modification times was not found")
+    lp = inner[0]
+    res = loop_nest_skips(cfg, fn, lp, lambda x: x.kind == "test" and isinstance(x.ast, ast.Compare) and "getmtime" in norm(x.ast))
+    rep.ob(R, site, "every source file reaches the modification-time comparison", res is None,
+           "an iteration of `for %s in %s` can end without the file's (or the files below it's) modification time being compared with the cache's: "
+           "an edit of such a file goes unnoticed and the stale cache is served" % ((norm(res[0].target)[:30], norm(res[0].iter)[:50]) if res else ("", "")),
+           path=cfg.describe(res[1]) if res else "")
+    for o in enclosing_loops(fn, lp):
+        if isinstance(o.iter, ast.Call) and (call_name(o.iter) or "").endswith("walk"):
+            dirvar = o.target.elts[1].id if isinstance(o.target, ast.Tuple) and len(o.target.elts) == 3 and isinstance(o.target.elts[1], ast.Name) else None
+            uses = [x for st in o.body for x in ast.walk(st) if isinstance(x, ast.Name) and x.id == dirvar] if dirvar else []
+            rep.ob(R, site, "the directory walk is not pruned", dirvar is not None and not uses,
+                   "the list of sub-directories os.walk hands out (`%s`) is used in the loop body: editing it prunes the walk" % dirvar)
 
 
 @SPEC.rule(
